@@ -2,13 +2,15 @@
 SPECIFICATION Spec
 CONSTANTS
   Eprs = {"e1", "e2"}
+  LocalEprs = {"e1"}
+  DupAll = FALSE
   UnknownEpr = "e9"
-  Versions = {1, 2, 3}
+  Versions = {1, 2}
   MsgIds = {"m1", "m2", "m3"}
   Cap = 2
-  Contents <- McContents
-  PairContents <- McPair
-  Profiles <- McProfiles
+  Contents <- QContents
+  PairContents <- QPair
+  Profiles <- QProfiles
   Filters <- McFilters
   MaxOps = 0
 VIEW view
